@@ -611,6 +611,114 @@ func c18(r *Report, s *Sem) {
 			r.Check(R6, "var "+g.Name()+" / access under lock in func "+fnName(ac.in.Parent()), p.instrPos(ac.in), ok, fmt.Sprintf("locks held: %v", hl))
 		}
 	}
+	R9 := r.Rule("R9", "stops all listeners: whatever a listener's Listen stores in the listener that can itself be closed (the net.Listener, the HTTP server) is closed by the listener's Close on every path past its not-started guard — the HTTP server's Close is what drops connections that are still in the upgrade", 2)
+	if tl := p.Type("TransportListener"); tl != nil {
+		for _, closeFn := range p.Implementations(tl, "Close") {
+			nt := namedOf(recvType(closeFn))
+			if nt == nil {
+				continue
+			}
+			listenFn := p.Method(nt.Obj().Name(), "Listen")
+			if listenFn == nil {
+				continue
+			}
+			var closeables []*types.Var
+			eachInstr(listenFn, func(in ssa.Instruction) {
+				st, ok := in.(*ssa.Store)
+				if !ok {
+					return
+				}
+				ap := pathOf(st.Addr)
+				f := ap.Last()
+				if f == nil || len(ap.Fields) != 1 || ap.Root != ssa.Value(listenFn.Params[0]) {
+					return
+				}
+				if isNilConst(st.Val) {
+					return
+				}
+				ms := types.NewMethodSet(f.Type())
+				hasClose := false
+				for i := 0; i < ms.Len(); i++ {
+					if ms.At(i).Obj().Name() == "Close" {
+						hasClose = true
+					}
+				}
+				if _, isChan := f.Type().Underlying().(*types.Chan); isChan || !hasClose {
+					return
+				}
+				for _, c := range closeables {
+					if c == f {
+						return
+					}
+				}
+				closeables = append(closeables, f)
+			})
+			for _, f := range closeables {
+				ff := f
+				bad := 0
+				walkFrom(closeFn, nil, walkOpts{
+					barrier: func(in ssa.Instruction) bool {
+						c, ok := in.(ssa.CallInstruction)
+						if !ok {
+							return false
+						}
+						name := ""
+						var recv ssa.Value
+						if c.Common().IsInvoke() {
+							name, recv = c.Common().Method.Name(), c.Common().Value
+						} else if g := staticCallee(c); g != nil && len(c.Common().Args) > 0 {
+							name, recv = g.Name(), c.Common().Args[0]
+						}
+						if name != "Close" && name != "Shutdown" {
+							return false
+						}
+						for _, l := range leaves(recv) {
+							if pathOf(l).Last() == ff {
+								return true
+							}
+						}
+						return false
+					},
+					onExit: func(e ssa.Instruction, pred *ssa.BasicBlock) {
+						if ret, ok := e.(*ssa.Return); ok && retMayBeNilVia(ret, pred) {
+							bad++
+						}
+					}})
+				r.Check(R9, "func "+fnName(closeFn)+" / closes "+f.Name()+" stored by Listen", p.pos(closeFn.Pos()), bad == 0, fmt.Sprintf("%d success exit(s) without Close/Shutdown on %s", bad, f.Name()))
+			}
+		}
+	}
+	R10 := r.Rule("R10", "Close works at any moment of the start-up: in the serve entry point the shutdown hook that Server.Close tests and calls is stored before the first listener is started (registered only after the listeners are bound, a Close that lands in between answers 'not listening' and the server serves on)", 1)
+	if las := p.Method("Server", "ListenAndServe"); las != nil {
+		shut := p.Field("Server", "shutdown")
+		var store *ssa.Store
+		eachInstr(las, func(in ssa.Instruction) {
+			if st, ok := in.(*ssa.Store); ok && shut != nil && pathOf(st.Addr).Last() == shut && !isNilConst(st.Val) {
+				if store == nil {
+					store = st
+				}
+			}
+		})
+		if store == nil {
+			r.Undecided(R10, "func (*Server).ListenAndServe / store of the shutdown hook", p.pos(las.Pos()), "not found")
+		} else {
+			early := true
+			n := 0
+			for _, f := range withAnon(las) {
+				eachCall(f, func(c ssa.CallInstruction) {
+					if c.Common().IsInvoke() && c.Common().Method.Name() == "Listen" {
+						n++
+						if f != las || !instrDominates(store, c.(ssa.Instruction)) {
+							early = false
+						}
+					}
+				})
+			}
+			r.Check(R10, "func (*Server).ListenAndServe / shutdown hook registered before any listener starts", p.instrPos(store), early && n > 0, fmt.Sprintf("%d Listen call(s); the store must dominate each", n))
+		}
+	} else {
+		r.Undecided(R10, "anchor-unresolved:Server.ListenAndServe", "-", "not found")
+	}
 	r.Import(s, "C13", "R11", "R8", "Close finishes every session: the finishing call stops the receiver and waits for it, so the receiver must be interruptible wherever it hands an envelope to a stream (a plain send parks it as soon as the dispatch loop has left, and the finished callback never fires)", 4)
 }
 
